@@ -1,8 +1,10 @@
 (* C19 — Adaptive bandwidth follows the median heuristic and gives scale invariance
-   (partial: that a whole fit commutes with scaling rests on the solver / median contracts and on float effects (eps mask, 1e-30)
-   that are bounded by the harness, not eliminated).  Models: XV.Real.Kernels (closed forms), XV.Real.Bandwidth. *)
+   (partial: the composition theorem shows that a whole fit commutes with scaling once its four component operations are homogeneous;
+   the components are proved for the closed forms — kernel (L2, product, Lpq), lower median, L2 gradient — while the solver is an
+   arbitrary function and float effects (the absolute eps mask, 1e-30, rounding) are bounded by the harness, not eliminated).
+   Models: XV.Real.Kernels (closed forms), XV.Real.Bandwidth, XV.Real.ScaleInv, XV.Real.GradScale. *)
 From Coq Require Import Reals QArith List.
-Require Import XV.Real.Kernels XV.Real.Bandwidth.
+Require Import XV.Real.Kernels XV.Real.Grads XV.Real.Bandwidth XV.Real.ScaleInv XV.Real.GradScale.
 Import ListNotations.
 
 (* K_{cL}(c x, c z) = K_L(x, z) for every c > 0, any dimension, any transform, any exponent *)
@@ -25,6 +27,38 @@ Theorem C19_lower_median_homogeneous : forall (c : Q) (l : list Q), (0 < c)%Q ->
   lower_median (map (Qmult c) l) = (c * lower_median l)%Q.
 Proof. exact lower_median_homogeneous. Qed.
 Print Assumptions C19_lower_median_homogeneous.
+
+(* the closed-form L2 gradient is homogeneous of degree -1 (centers coincident with z or at distance >= eps before and after scaling) *)
+Theorem C19_l2_gradient_homogeneous : forall t L q eps c xs cs z, (0 < c)%R -> (0 < L)%R -> (0 < eps)%R ->
+  List.Forall (fun x => let d := cdist2 (transform t x) (transform t z) in d = 0%R \/ (eps <= d /\ eps <= c * d)%R) xs ->
+  grad_l2 t (c * L) q eps (map (vscaleR c) xs) cs (vscaleR c z) = vscaleR (/ c) (grad_l2 t L q eps xs cs z).
+Proof. exact grad_l2_homogeneous. Qed.
+Print Assumptions C19_l2_gradient_homogeneous.
+
+(* a matrix divided by its largest entry does not see a positive common factor (the 1/c^2 of the gradient outer products) *)
+Theorem C19_normalised_agop_ignores_common_factor : forall (k m : R) (M : list (list R)), (0 < k)%R -> (0 < m)%R ->
+  map (map (fun x => x / (k * m))%R) (map (map (Rmult k)) M) = map (map (fun x => x / m)%R) M.
+Proof. exact normalise_invariant. Qed.
+Print Assumptions C19_normalised_agop_ignores_common_factor.
+
+(* composition: with homogeneous components every round of bandwidth -> solve -> AGOP gives the same coefficients and feature matrices
+   on c*X as on X, bandwidths scaled by c, identical predictions; any selection rule based on validation predictions picks the same
+   iterate, so the returned model predicts identically on rescaled queries.  `solve` is an arbitrary function. *)
+Theorem C19_fit_commutes_with_rescaling :
+  forall (Data Mat Gram Coef Query Out : Type) (scale : R -> Data -> Data) (qscale : R -> Query -> Query)
+         (bw : Mat -> Data -> R) (gram : Mat -> R -> Data -> Gram) (solve : Gram -> Coef)
+         (agop : Mat -> R -> Data -> Coef -> Mat) (predict : Mat -> R -> Data -> Coef -> Query -> Out) (c : R),
+  (forall M X, bw M (scale c X) = c * bw M X)%R ->
+  (forall M L X, gram M (c * L)%R (scale c X) = gram M L X) ->
+  (forall M L X a, agop M (c * L)%R (scale c X) a = agop M L X a) ->
+  (forall M L X a z, predict M (c * L)%R (scale c X) a (qscale c z) = predict M L X a z) ->
+  forall M0 X (V : list Query) (select : list (list Out) -> nat) (rounds : nat) z,
+  prediction Data Mat Gram Coef Query Out bw gram solve agop predict M0 (scale c X)
+    (select (val_predictions Data Mat Gram Coef Query Out bw gram solve agop predict M0 (scale c X) rounds (map (qscale c) V))) (qscale c z)
+  = prediction Data Mat Gram Coef Query Out bw gram solve agop predict M0 X
+    (select (val_predictions Data Mat Gram Coef Query Out bw gram solve agop predict M0 X rounds V)) z.
+Proof. intros. apply selected_model_invariant; assumption. Qed.
+Print Assumptions C19_fit_commutes_with_rescaling.
 
 Example C19_example : lower_median [3; 1; 4; 1; 5; 9]%Q = 3%Q /\ lower_median (map (Qmult 2) [3; 1; 4; 1; 5; 9])%Q = (2 * 3)%Q.
 Proof. vm_compute. split; reflexivity. Qed.
